@@ -245,8 +245,12 @@ def _xgrid_case(i, rng):
     # polynomial inputs f_b
     Fc = rng.normal(size=(na, deg + 1)) / us ** np.arange(deg + 1)[None, :]
 
-    tgx = None if tg is None else interpolation.XGrid(tg, log=log)
-    igx = None if ig is None else interpolation.XGrid(ig, log=log)
+    # the new grids are sets of nodes: a caller may list them in descending order (e.g. np.geomspace(1, xmin, n))
+    desc = bool(rng.random() < 0.2)
+    if desc:
+        out["hits"]["new_grid_listed_descending"] = 1
+    tgx = None if tg is None else interpolation.XGrid(np.asarray(tg)[::-1].copy() if desc else tg, log=log)
+    igx = None if ig is None else interpolation.XGrid(np.asarray(ig)[::-1].copy() if desc else ig, log=log)
     changed = any(x is not None and (len(x) != n or not np.array_equal(x, g)) for x in (tg, ig))
     key = ("xgrid", which, variant, n, deg, log, na, i)
     out["key"] = key
